@@ -13,6 +13,8 @@ def oracle(env, ev):
         wl = getattr(h, '_worker_lost', None)
         if wl and rec.get('lost_seen') is None:
             rec['lost_seen'] = wl[0]          # detection instant
+        if not wl and rec.get('lost_reported_at') is None:
+            rec['lost_seen'] = None           # mark dropped (late result)
         if rec.get('lost_reported_at') is not None and \
                 not rec.get('timing_checked'):
             rec['timing_checked'] = True
@@ -37,14 +39,19 @@ def oracle(env, ev):
             if rec['kind'] == 'imap_unordered':
                 continue      # reported item by item: see final()
             ready = h._ready if rec['kind'].startswith('imap') else h.ready()
-            if wl and not ready and now - wl[0] > h._lost_worker_timeout + 1e-9:
+            # (measured from the first detection, not from whatever instant
+            # the handle's mark carries now)
+            det = rec.get('lost_seen') if wl else None
+            if wl and not ready and det is not None and \
+                    now - det > h._lost_worker_timeout + 1e-9:
                 sig = None
                 if rec['kind'] == 'imap':
                     sig = 'F5:imap-ordered-loss-unreported'
                 return ('job %d (%s): supervision ran %.3fs after the loss '
                         'was detected (timeout %.3f) and still did not report '
-                        'it' % (j, rec['kind'], now - wl[0],
-                                h._lost_worker_timeout), sig)
+                        'it (the handle\'s mark now says %.3fs)' % (
+                            j, rec['kind'], now - det,
+                            h._lost_worker_timeout, now - wl[0]), sig)
         # every reaped worker has been replaced
         pool = env.pool
         if pool._state == 0 and not getattr(env, 'tick_raised', False) and \
@@ -65,9 +72,12 @@ def final(env):
             continue
         lost = [p for p in rec['parts'].values() if p.get('state') == 'lost']
         got_err = False
+        # (what the history's own next() calls already took out counts too)
+        vals = [n[1] for n in rec['nexts'] if n[0] == 'val']
+        nerr = len([n for n in rec['nexts'] if n[0] == 'err'])
         for _ in range(rec['nparts'] + 2):
             try:
-                h.next(timeout=0)
+                vals.append(h.next(timeout=0))
             except StopIteration:
                 break
             except Exception as exc:
@@ -78,6 +88,27 @@ def final(env):
                             'everything settled (parts %r)' % (
                                 rec['kind'], j, rec['parts']), sig)
                 got_err = True
+                nerr += 1
+        if rec['kind'] == 'imap_unordered' and (rec['t'].get('chunksize')
+                                                or 1) == 1 and \
+                rec['t'].get('fn') == 'tenfold':
+            # that part and no other: every part that was not lost delivers
+            # its value, every lost part exactly one error item
+            done = sorted(repr(rec['expect_items'][i][1])
+                          for i, p in rec['parts'].items()
+                          if p.get('state') == 'done')
+            if sorted(map(repr, vals)) != done or nerr != len(lost):
+                sig = None
+                if lost and nerr > len(lost):
+                    # the lost part's owner is never forgotten and the mark
+                    # never cleared: re-reported at every supervision round
+                    sig = 'F37:imap-unordered-loss-reported-every-round'
+                return ('imap_unordered job %d: parts %r, but the iterator '
+                        'delivered values %r and %d error items (a loss is '
+                        'reported once, for the lost part only)' % (
+                            j, {i: p.get('state')
+                                for i, p in rec['parts'].items()},
+                            vals, nerr), sig)
         if lost and not got_err:
             return ('%s job %d lost a part but its iterator never raised'
                     % (rec['kind'], j))
@@ -123,10 +154,19 @@ def configs(tier):
             ('recycle-map', [mp, ap], 2, dict(A, die=(-9,), die_idle=False),
              dict(pool, maxtasksperchild=1)),
             ('recycle-imap', [imu], 2, dict(A, die=(-9,), die_idle=False),
-             dict(pool, maxtasksperchild=1))):
+             dict(pool, maxtasksperchild=1)),
+            # a second worker is reaped while a lost job waits out its
+            # grace period
+            ('apply/second-exit-during-grace', [dict(ap, lost=2.0), ap], 2,
+             dict(A, die=(-9,), die_idle=True, max_adv=2, depth=d + 2), pool),
+            # one part lost while its sibling is still running: several
+            # supervision rounds pass before the sibling finishes
+            ('imap_unordered/slow-sibling', [imu], 2,
+             dict(A, die=(-9,), die_idle=False, max_adv=1, depth=d + 3),
+             pool)):
         out.append(dict(name=name, procs=procs, jobs=jobs, pool=pk,
-                        alphabet=alpha, depth=d, max_states=ms,
-                        final='harness.c04:final',
+                        alphabet=alpha, depth=alpha.pop('depth', d),
+                        max_states=ms, final='harness.c04:final',
                         oracle='harness.c04:oracle'))
     if T:
         out.append(dict(name='apply3w', procs=3, jobs=[ap, ap2, ap],
